@@ -590,6 +590,15 @@ func ruleC09Mark(w *World, r *Report) {
 		r.check(okShape, "R09.5", fn, "index into "+base+" is a full-range loop index", w.Pos(ia.Pos()), valueText(idx), "loop over "+base+" does not cover every element ("+valueText(idx)+"): some rules are never examined (the session-wide limiter must be referenced by every PDR)")
 	})
 	r.floor("R09.5 indexed accesses to the rule lists in MarkSessionQer", n, 4)
+	markBothLists(w, r, "R09.5")
+}
+
+// markBothLists: both session handlers apply MarkSessionQer to the stored QERs and to the
+// QERs of the current message, before programming: the stored and the programmed QoS level
+// of a QER must agree or a later delete addresses the wrong table.
+func markBothLists(w *World, r *Report, rule string) {
+	P := r.Prop
+	f := w.Fn(P, "pfcpiface.(*PFCPSession).MarkSessionQer")
 	// both handlers mark the stored QERs and the message's QERs
 	for _, hn := range []string{"handleSessionEstablishmentRequest", "handleSessionModificationRequest"} {
 		h := w.Fn(P, "pfcpiface.(*PFCPConn)."+hn)
@@ -606,14 +615,14 @@ func ruleC09Mark(w *World, r *Report) {
 				msg = true
 			}
 		}
-		r.check(stored && msg, "R09.5", w.FuncName(h), "marks the stored QERs and the QERs of this message", w.Pos(h.Pos()), strings.Join(args, " ; "), "MarkSessionQer is applied to ["+trunc80(strings.Join(args, " ; "))+"]: stored and programmed QoS levels diverge (delete then addresses the wrong table)")
+		r.check(stored && msg, rule, w.FuncName(h), "marks the stored QERs and the QERs of this message", w.Pos(h.Pos()), strings.Join(args, " ; "), "MarkSessionQer is applied to ["+trunc80(strings.Join(args, " ; "))+"]: stored and programmed QoS levels diverge (delete then addresses the wrong table)")
 		// and before the datapath write
 		for _, c := range callsTo(h, f) {
 			for _, wc := range datapathCalls(h, "SendMsgToUPF") {
 				if sendMsgMethod(wc) == w.ConstInt(P, pfcpPkg, "upfMsgTypeDel") {
 					continue
 				}
-				r.check(instrDominates(c.(ssa.Instruction), wc), "R09.5", w.FuncName(h), "marking precedes programming", w.Pos(c.Pos()), "dominates the write", "QERs are programmed before they are marked")
+				r.check(instrDominates(c.(ssa.Instruction), wc), rule, w.FuncName(h), "marking precedes programming", w.Pos(c.Pos()), "dominates the write", "QERs are programmed before they are marked")
 			}
 		}
 	}
